@@ -4,7 +4,7 @@ from ..oracles import c06
 MODELS = ["Aero", "Functionals", "Constants", "Atmos", "AtmosTable"]
 STREAMS = [aero_streams.stream_eval_mtx, aero_streams.stream_geometry_and_flow, aero_streams.stream_system, aero_streams.stream_chain, functionals.stream_scalar_functionals, functionals.stream_moment]
 ORACLES = [c06.oracle_laws]
-UNPROVED = ["the laws are proved per stage (kernel / ring / right-hand side / solution / local velocity / force / coefficient); their composition through the whole AeroPoint group is exercised by the law-level pairs of the oracle, not stated as one theorem",
+UNPROVED = ["the laws are proved per stage (kernel / ring / right-hand side / solution / local velocity / force / coefficient) and, for the assembled tangency system of one surface, as whole-chain theorems (speed, translation, length scaling: C06_assembled_system_*); the force / coefficient stages on top of the solved system and multi-surface compositions are exercised by the law-level pairs of the oracle",
             "MAC and moment-coefficient invariance under length scaling: proved for the MomentCoefficient model given forces ~ c^2 (C06_moment_coefficient_invariant_under_length_scaling); the composition with the force stage is exercised by the oracle"]
 ASSUMPTIONS = [
     "length scaling holds under the explicit guard that no kernel denominator crosses the absolute tolerance 1e-10 at either scale (C06_absolute_tolerance_breaks_scaling shows the guard is needed); the oracle uses k in [1e-2, 1e2] on metre-sized wings",
